@@ -166,4 +166,8 @@ def _evolve(data: IOData, **changes) -> IOData:
         changes = {"nelec": None, "spinpol": None, **changes}
         if data.atcorenums is not None:
             changes = {"charge": None, **changes}
+    else:
+        # Reading the charge lets the object settle a charge that was stored before the core charges
+        # were known: the constructor of the copy would otherwise let it override the number of electrons.
+        data.charge  # noqa: B018
     return attrs.evolve(data, **changes)
